@@ -27,14 +27,22 @@ RULE = ('inputs: tests/test_vec/rot_main.bsp and synthesised BSPs (own encoders,
         'header order, INFRA v22, Chaos v25, VitaminSource v43 (magic FART; some worlds with bytes in the lumps whose views '
         'parse to nothing there: ORIGINALFACES, FACES_HDR, PRIMITIVES, PRIMVERTS, PRIMINDICES); with/without LZMA lumps, LZMA game lumps with the dummy trailing entry, 13 '
         'static-prop versions, both output separators, HDR face lump equal/absent/different in length, FACEIDS present/absent, '
-        'with/without a vertex at the origin, Chaos float bounds integral/fractional); access sequences: empty, all 21 '
+        'with/without a vertex at the origin, Chaos float bounds integral/fractional; plus worlds with REPEATED ENTRIES: '
+        'identical planes/vertexes/texinfo/texdata/faces/orig faces/primitives/leafs/nodes/cubemaps/overlays/entities/static '
+        'and detail props also at non-adjacent indexes, equal and reversed edges, texture names equal and equal up to '
+        'letter case, brushes on one run of sides / equal runs / nested runs, leaf face and brush runs shared or being a '
+        'prefix/suffix of another, repeated LEAFFACES/LEAFBRUSHES entries, primitives on one index/vertex run, duplicate '
+        'model-name and sprite dictionary entries, static props sharing or repeating a leaf run, equal visibility rows); '
+        'access sequences: empty, all 21 '
         'singletons, pairs (quick: seeded sample; thorough: all 210 for some worlds), random k-subsets in random order. '
         'Each case = read, touch, save, save again, re-read, compare header/raw/canonical content, touch+save once more. '
         'Engine "read" compares what the library parses from a synthesised file with the abstract world it was encoded from. '
         'Non-trivial = non-empty access sequence; distinct = distinct (world, sequence). '
         'Generator restrictions (format cannot carry / documented by the code): GAME_LUMP header version 0; entity keys '
         'unique per entity, without quotes/backslashes/newlines, never "nodeid"; no entity value with ESC or with exactly '
-        'four commas and a numeric tail; texdata view size = size; every brush model referenced by an entity; '
+        'four commas and a numeric tail; texdata view size = size; where texture names differ in letter case only, texdata '
+        'refers to the last of them (the table is documented case-insensitive: only for that member is the spelling a '
+        'material reads back with defined); every brush model referenced by an entity; '
         'LEAFMINDISTTOWATER has one entry per leaf; leaf area < 256, leaf flags < 128, contents/surface flags < 2^31; '
         'angles in [0,360); physics KV one pair per line; Mesa static-prop flags < 2^32; pakfile a valid zip; '
         'sprp/dprp game lumps always present; parsed entity key order is not compared (mapping semantics); VitaminSource leaf '
@@ -301,6 +309,7 @@ def check_read_side(run, inp: Input, case: dict) -> None:
 
 
 VITAMIN_WORLD_BASE = 100000
+DUPS_WORLD_BASE = 200000
 
 WORLD_VARIANTS = [
     dict(),  # everything drawn from the rng
@@ -321,6 +330,9 @@ def make_world(seed: int, wi: int, layout: str, variant: int) -> dict:
     # VitaminSource file.  The library's views of those lumps are empty by definition on that layout and a save writes them
     # back empty.  The statement demands "equal parsed content for every lump that has [a view]" - which holds ([] == []) -
     # so such files are NOT generated: judging them byte-wise would demand more than the property states (DESIGN.md 9.2).
+    if wi >= DUPS_WORLD_BASE:
+        # repeated / identical table entries (gen_bsp.apply_dups); needs tables with several entries
+        opts.update(dups=True, scale=2 + variant % 2)
     return G.gen_world(rng, layout, **opts)
 
 
@@ -364,12 +376,18 @@ def main(run, shard=(0, 1)) -> None:
         n_worlds = (20 if thorough else 3) * len(layouts)
         plan = [(wi, layouts[wi % len(layouts)], wi // len(layouts)) for wi in range(n_worlds)]
         plan += [(VITAMIN_WORLD_BASE + j, 'vitamin', j) for j in range(20 if thorough else 3)]
+        all_layouts = list(G.LAYOUTS)
+        plan += [(DUPS_WORLD_BASE + j, all_layouts[j % len(all_layouts)], j // len(all_layouts))
+                 for j in range(len(all_layouts) * (5 if thorough else 1))]
         for wi, layout, variant in plan:
             W = None
             inp = None
             seq_rng = sub_rng(run.seed, 'seqs', wi)
             all_pairs = thorough and variant in (0, 3)
-            seqs = sequences(seq_rng, 60 if thorough else 10, 40 if thorough else 5, all_pairs)
+            if wi >= DUPS_WORLD_BASE:
+                seqs = sequences(seq_rng, 60 if thorough else 3, 40 if thorough else 2, False)
+            else:
+                seqs = sequences(seq_rng, 60 if thorough else 6, 40 if thorough else 3, all_pairs)
             todo = []
             for seq in [None] + seqs:
                 ci += 1
@@ -386,6 +404,11 @@ def main(run, shard=(0, 1)) -> None:
                     'game_lumps': [[g['id'].decode(), g['flags']] for g in W['game_lumps']]}
             inp = Input(f'{layout}#{wi}', wpath, W, desc)
             explored[layout] = explored.get(layout, 0) + 1
+            if W.get('dups'):
+                if wi % shard[1] == shard[0]:  # count a world once, not once per shard that works on it
+                    run.count('worlds_with_dups')
+                    run.count('dup_entries_generated', sum(W['dups'].values()))
+                desc['dups'] = {k: v for k, v in W['dups'].items() if k != 'visibility_rows_equal'}
             for cidx, seq in todo:
                 case = {'kind': 'world', 'world': wi, 'layout': layout, 'variant': variant, 'touch': seq, 'sample': cidx % 97 == 0}
                 if seq is None:
@@ -393,6 +416,8 @@ def main(run, shard=(0, 1)) -> None:
                 else:
                     run_case(run, inp, seq, tmp, 'synth', case, own)
                     run.count('cases_' + layout)
+                    if W.get('dups'):
+                        run.count('cases_on_worlds_with_dups')
                     run.count('subsets_' + ('empty' if not seq else 'single' if len(seq) == 1 else 'pair' if len(seq) == 2 else 'k'))
             os.unlink(wpath)
         # ---- the sample BSP of the test-suite (large entity lump: few sequences)
@@ -417,7 +442,7 @@ def main(run, shard=(0, 1)) -> None:
                                   'BSP._lmp_write_water_leaf_info', 'BSP._lmp_write_faces', 'BSP._lmp_write_props',
                                   'BSP._lmp_write_detail_props', 'BSP._lmp_write_bmodels', 'BSP._lmp_write_visibility'])
     run.require('saves_attempted', 'cycles_completed', 'read_side_checks', 'subsets_empty', 'subsets_single', 'subsets_pair',
-                'subsets_k', 'seed_file_cases')
+                'subsets_k', 'seed_file_cases', 'worlds_with_dups', 'cases_on_worlds_with_dups')
 
 
 def replay(run, data) -> None:
